@@ -200,6 +200,10 @@ func c19Config(t *rapid.T, p *Profile) WorldConfig {
 			}
 			cfg.Resources = append(cfg.Resources, ResDef{Name: fmt.Sprintf("t.r%d", i), Type: "model", Model: m})
 		}
+		// leaves that only a later event references
+		for i := 0; i < 9; i++ {
+			cfg.Resources = append(cfg.Resources, ResDef{Name: fmt.Sprintf("t.x%d", i), Type: "model", Model: map[string]Val{"x": Prim("1")}})
+		}
 	}
 	return cfg
 }
@@ -249,7 +253,12 @@ func c19Scenario(t *rapid.T, w *World, p *Profile) {
 		}
 	}
 	policy := rapid.SampledFrom([]string{"oldest", "newest", "drawn", "drawn"}).Draw(t, "policy")
-	nres := len(w.Cfg.Resources)
+	nres := 0
+	for _, d := range w.Cfg.Resources {
+		if strings.HasPrefix(d.Name, "t.r") {
+			nres++
+		}
+	}
 	if w.Cfg.ReferenceThrottle > 0 || (w.Cfg.ResetThrottle == 0 && strings.Contains(fmt.Sprint(w.Cfg.Resources[0].Model), "r")) && false {
 	}
 	isRefs := false
@@ -276,6 +285,39 @@ func c19Scenario(t *rapid.T, w *World, p *Profile) {
 			w.Exec(Op{K: "creq", C: i, ID: 2, M: "subscribe." + root})
 			// answer gets in the policy order, access at a drawn moment
 			answerAll(t, w, policy, "")
+		}
+		// references added by one change event to a model that has been sent are
+		// followed under the same bound, per connection holding the model
+		if w.Cfg.ReferenceThrottle > 0 && w.Failed == "" && w.Deadlock == "" && rapid.Bool().Draw(t, "evrefs") {
+			var models []string
+			for _, d := range w.Cfg.Resources {
+				if d.Type == "model" && strings.HasPrefix(d.Name, "t.r") {
+					models = append(models, d.Name)
+				}
+			}
+			if len(models) > 0 {
+				name := rapid.SampledFrom(models).Draw(t, "evmodel")
+				holders := 0
+				for _, c := range w.Clients {
+					if r := c.Ref.Held[name]; r != nil && r.Type == 'm' {
+						holders++
+					}
+				}
+				if holders > 0 {
+					k := w.Cfg.ReferenceThrottle + rapid.IntRange(1, 3).Draw(t, "evextra")
+					vals := ""
+					for i := 0; i < k; i++ {
+						if i > 0 {
+							vals += ","
+						}
+						vals += fmt.Sprintf(`"e%d":{"rid":"t.x%d"}`, i, i)
+					}
+					setMeta(w, c19Meta{Mode: "refs", Limit: w.Cfg.ReferenceThrottle, Expected: -1, Alive: holders, Arm: true})
+					w.Exec(Op{K: "rawev", S: "event." + name + ".change", P: `{"values":{` + vals + `}}`, Key: "c19:event-adds-references"})
+					m.class("event_adds_references_beyond_limit")
+					answerAll(t, w, policy, "")
+				}
+			}
 		}
 		if w.Cfg.ReferenceThrottle > 0 {
 			m.class("refs_throttled")
